@@ -43,10 +43,12 @@ package cache
 //@     assert [C17:an-uncharged-entry-has-left-the-recency-list] rn.prev == nil && rn.next == nil
 //@   guarantees [C17:ban-uncharges-the-node] (calls("(*Handle).Release") == old(calls("(*Handle).Release")) + 1) ==> (r.used == old(r.used) - rn.n.size && rn.ban)
 //@   ensures [C17:no-release-no-change] (calls("(*Handle).Release") == old(calls("(*Handle).Release"))) ==> r.used == old(r.used)
+//@   ensures [C17:a-banned-node-carries-the-mark-that-keeps-it-out] n.CacheData != nil
 
 // C17 (finalisers): closing the cache takes every node back from the replacement policy, forced or not: the policy's
 // own handle on a resident value is what keeps its finaliser from running after the last user handle is gone.
 //@ count cache.Cacher.Evict
+//@ count cache.Cacher.Ban
 //@ func (*Cache).Close$1
 //@   props C17
 //@   safety off
@@ -96,3 +98,5 @@ package cache
 //@     ghost gDelRan = true
 //@   at before stmt return false#1
 //@     assert [C07,C17,C19:a-closed-cache-still-runs-the-deletion-callback] delFunc == nil || gDelRan
+//@   at before stmt return true#1
+//@     assert [C17:a-deleted-entry-is-banned-from-the-replacement-policy] r.cacher == nil || calls("cache.Cacher.Ban") == old(calls("cache.Cacher.Ban")) + 1
